@@ -144,6 +144,15 @@ func init() {
 						ext := tabula.Open(path)
 						txt, _, terr := ext.Text()
 						ext.Close()
+						// every entry point admits or refuses the file as Text does
+						_, _, e1 := tabula.Open(path).ToMarkdown()
+						_, _, e2 := tabula.Open(path).Document()
+						_, _, e3 := tabula.Open(path).Chunks()
+						pcx := tabula.Open(path)
+						_, e4 := pcx.PageCount()
+						pcx.Close()
+						same := (e1 != nil) == (terr != nil) && (e2 != nil) == (terr != nil) && (e3 != nil) == (terr != nil) && (e4 != nil) == (terr != nil)
+						r.Check(same, "entry-points-disagree:"+d.f.String(), fmt.Sprintf("a %s file named %q: Text %v, ToMarkdown %v, Document %v, Chunks %v, PageCount %v", d.f, "f"+e, terr, e1, e2, e3, e4), L(I(2), Bs("f"+e), c20ContentV(d, data)))
 						os.Remove(path)
 						refused := terr != nil && (strings.Contains(terr.Error(), "file format mismatch") || strings.Contains(terr.Error(), "failed to detect file format"))
 						av := L(I(2), Bs("f"+e), c20ContentV(d, data))
